@@ -123,9 +123,9 @@ theorem step_stack_len {m m' : M} {cfg : Cfg} {buf : Bytes} {p pk : Nat} (h : m.
   obtain ⟨_, _, k⟩ := step_cases h
   cases k with
   | keep _ _ hs => rw [hs]; omega
-  | opn _ _ r _ hs => rw [hs]; simp
+  | opn _ _ r _ hs => rw [hs]; simp; omega
   | cls _ x hs _ => rw [hs]; simp
-  | root _ _ hs => rw [hs]; simp
+  | root _ _ hs => rw [hs]; simp; omega
   | sc _ _ hs => rw [hs]; omega
   | ndnl _ _ hs => rw [hs]; omega
   | ndopen _ _ x rest hs _ hs' => rw [hs, hs']; simp
@@ -148,9 +148,11 @@ theorem cnt_diff (p : Nat) : ∀ k, E.c (p + k) ≤ E.c p + k
   | k + 1 => by
     have h := cnt_diff p k
     have h2 := E.SF.cnt_succ (p + k)
-    show cnt E.nd E.msg (p + (k + 1)) ≤ _
+    show cnt E.nd E.msg (p + (k + 1)) ≤ cnt E.nd E.msg p + (k + 1)
     rw [show p + (k + 1) = p + k + 1 by omega, h2]
-    split <;> omega
+    have h' : cnt E.nd E.msg (p + k) ≤ cnt E.nd E.msg p + k := h
+    have h3 : (if emit E.nd E.msg (p + k) = true then 1 else 0) ≤ 1 := by split <;> omega
+    omega
 
 /-- fewer bytes left in the window than containers to close -/
 theorem dead_by_depth {a e p : Nat} (W : Win E a e) (ha : a ≤ p) (hp : p ≤ e) {m : M}
@@ -171,5 +173,231 @@ theorem dead_by_depth {a e p : Nat} (W : Win E a e) (ha : a ≤ p) (hp : p ≤ e
       simp only [Option.bind_some]
       exact finish_none_of_len (by omega)
   · sorry
+
+/-! ## the ghost document -/
+
+/-- ghost with its frame list replaced -/
+def withF (g : Ghost) (F : List Frame) : Ghost := { g with frames := F }
+
+theorem withF_self (g : Ghost) : withF g g.frames = g := by cases g; rfl
+theorem withF_withF (g : Ghost) (F F' : List Frame) : withF (withF g F) F' = withF g F' := rfl
+theorem openArr_eq (g : Ghost) (L : Nat) : g.openArr L = withF g (.arr L [] :: g.frames) := rfl
+theorem openObj_eq (g : Ghost) (L : Nat) : g.openObj L = withF g (.obj L [] none :: g.frames) := rfl
+theorem addVal_arr (g : Ghost) (pos : Nat) (rev : List LVal) (fs : List Frame) (lv : LVal) :
+    (withF g (.arr pos rev :: fs)).addVal lv = withF g (.arr pos (lv :: rev) :: fs) := rfl
+theorem close_arr (g : Ghost) (pos : Nat) (rev : List LVal) (fs : List Frame) (L : Nat) :
+    (withF g (.arr pos rev :: fs)).close L = (withF g fs).addVal (.arr pos (L + 1) (toLVals rev.reverse)) := rfl
+theorem setKey_obj (g : Ghost) (pos : Nat) (rev : List (Nat × List UInt8 × LVal)) (k0 : Option (Nat × List UInt8))
+    (fs : List Frame) (pk : Nat) (key : List UInt8) :
+    (withF g (.obj pos rev k0 :: fs)).setKey pk key = withF g (.obj pos rev (some (pk, key)) :: fs) := rfl
+theorem addVal_obj (g : Ghost) (pos : Nat) (rev : List (Nat × List UInt8 × LVal)) (pk : Nat) (key : List UInt8)
+    (fs : List Frame) (lv : LVal) :
+    (withF g (.obj pos rev (some (pk, key)) :: fs)).addVal lv = withF g (.obj pos ((pk, key, lv) :: rev) none :: fs) := rfl
+theorem close_obj (g : Ghost) (pos : Nat) (rev : List (Nat × List UInt8 × LVal)) (k0 : Option (Nat × List UInt8))
+    (fs : List Frame) (L : Nat) :
+    (withF g (.obj pos rev k0 :: fs)).close L = (withF g fs).addVal (.obj pos (L + 1) (toLMems rev.reverse)) := rfl
+
+theorem erase_toLVals : ∀ (l : List LVal) (l' : List Spec.JVal), l.map erase = l'.map ofSpec →
+    eraseVals (toLVals l) = ofSpecList l'
+  | [], [], _ => by simp [toLVals, eraseVals, ofSpecList]
+  | [], _ :: _, h => by simp at h
+  | _ :: _, [], h => by simp at h
+  | x :: l, y :: l', h => by
+    simp only [List.map_cons, List.cons.injEq] at h
+    simp only [toLVals, eraseVals, ofSpecList, h.1, erase_toLVals l l' h.2]
+
+theorem erase_toLMems : ∀ (l : List (Nat × List UInt8 × LVal)) (l' : List (List UInt8 × Spec.JVal)),
+    l.map (fun x => (x.2.1, erase x.2.2)) = l'.map (fun y => (y.1, ofSpec y.2)) →
+    eraseMems (toLMems l) = ofSpecMems l'
+  | [], [], _ => by simp [toLMems, eraseMems, ofSpecMems]
+  | [], _ :: _, h => by simp at h
+  | _ :: _, [], h => by simp at h
+  | (pk, k, v) :: l, (k', v') :: l', h => by
+    simp only [List.map_cons, List.cons.injEq, Prod.mk.injEq] at h
+    simp only [toLMems, eraseMems, ofSpecMems, h.1.1, h.1.2, erase_toLMems l l' h.2]
+
+theorem erase_arr (pos fin : Nat) (rev : List LVal) (acc : List Spec.JVal) (h : rev.map erase = acc.map ofSpec) :
+    erase (.arr pos fin (toLVals rev.reverse)) = ofSpec (.arr acc.reverse) := by
+  simp only [erase, ofSpec]
+  rw [erase_toLVals rev.reverse acc.reverse (by rw [List.map_reverse, List.map_reverse, h])]
+
+theorem erase_obj (pos fin : Nat) (rev : List (Nat × List UInt8 × LVal)) (acc : List (List UInt8 × Spec.JVal))
+    (h : rev.map (fun x => (x.2.1, erase x.2.2)) = acc.map (fun y => (y.1, ofSpec y.2))) :
+    erase (.obj pos fin (toLMems rev.reverse)) = ofSpec (.obj acc.reverse) := by
+  simp only [erase, ofSpec]
+  rw [erase_toLMems rev.reverse acc.reverse (by rw [List.map_reverse, List.map_reverse, h])]
+
+/-! ## the three simulation statements -/
+
+/-- the last index before `p'` is a closing brace or bracket at `p' - 1` -/
+def ClosedAt (E : Env) (p' : Nat) : Prop :=
+  ∃ q, p' = q + 1 ∧ q < E.msg.size ∧ E.em q = true ∧ (E.b q = 125 ∨ E.b q = 93)
+
+/-- the container whose stack entry is `ent` was consumed up to `p'`; `g0`/`fs` = the ghost outside the container -/
+def ContAcc (E : Env) (e p : Nat) (m : M) (g g0 : Ghost) (fs : List Frame) (ent : UInt64) (stk : List UInt64)
+    (v : Spec.JVal) (rest : List UInt8) : Prop :=
+  ∃ p' m' lv, rest = E.seg e p' ∧ p < p' ∧ p' ≤ e ∧
+    run E m g (E.c p) = run E m' ((withF g0 fs).addVal lv) (E.c p') ∧ erase lv = ofSpec v ∧ E.Rdy p' ∧
+    E.err p' = E.err p ∧ m'.st = retSt ent ∧ m'.stack = stk ∧ E.c p < E.c p' ∧ Prog E m p m' p' ∧ ClosedAt E p'
+
+def ValueSim (E : Env) (a e fuel : Nat) : Prop :=
+  ∀ (p : Nat) (m : M) (g : Ghost), a ≤ p → p < e → E.Rdy p → Spec.isWs (E.b p) = false →
+    (e - p) + 3 ≤ fuel + m.stack.length → IsValSt m.st (E.b p) → StackShape m.stack → MOK E m p →
+    match Spec.value fuel (E.seg e p) with
+    | .acc v rest => ValAcc E e p m g v rest
+    | .rej => Dead E m (E.c p)
+    | .out => True
+
+def ElemsSim (E : Env) (a e fuel : Nat) : Prop :=
+  ∀ (p : Nat) (m : M) (g0 : Ghost) (acc : List Spec.JVal) (first : Bool) (pos : Nat) (rev : List LVal)
+    (fs : List Frame) (ent : UInt64) (stk : List UInt64),
+    a ≤ p → p ≤ e → E.Rdy p → (p < e → Spec.isWs (E.b p) = false) →
+    (e - p) + 4 ≤ fuel + m.stack.length → m.st = (if first then St.arrBegin else St.arrValue) →
+    m.stack = ent :: stk → StackShape m.stack → MOK E m p → rev.map erase = acc.map ofSpec →
+    match Spec.elements fuel (E.seg e p) acc first with
+    | .acc v rest => ContAcc E e p m (withF g0 (.arr pos rev :: fs)) g0 fs ent stk v rest
+    | .rej => Dead E m (E.c p)
+    | .out => True
+
+def MembersSim (E : Env) (a e fuel : Nat) : Prop :=
+  ∀ (p : Nat) (m : M) (g0 : Ghost) (acc : List (List UInt8 × Spec.JVal)) (first : Bool) (pos : Nat)
+    (rev : List (Nat × List UInt8 × LVal)) (fs : List Frame) (ent : UInt64) (stk : List UInt64),
+    a ≤ p → p ≤ e → E.Rdy p → (p < e → Spec.isWs (E.b p) = false) →
+    (e - p) + 4 ≤ fuel + m.stack.length → m.st = (if first then St.objBegin else St.objKeyAfterComma) →
+    m.stack = ent :: stk → StackShape m.stack → MOK E m p →
+    rev.map (fun x => (x.2.1, erase x.2.2)) = acc.map (fun y => (y.1, ofSpec y.2)) →
+    match Spec.members fuel (E.seg e p) acc first with
+    | .acc v rest => ContAcc E e p m (withF g0 (.obj pos rev none :: fs)) g0 fs ent stk v rest
+    | .rej => Dead E m (E.c p)
+    | .out => True
+
+/-! ## helpers -/
+
+theorem skip_to {a e p' : Nat} (W : Win E a e) (ha : a ≤ p') (hp : p' ≤ e) (hr : E.Rdy p') {x : UInt8} {r : List UInt8}
+    (h : Spec.skipWs (E.seg e p') = x :: r) :
+    ∃ q, p' ≤ q ∧ q < e ∧ E.b q = x ∧ r = E.seg e (q + 1) ∧ E.Rdy q ∧ E.c q = E.c p' ∧ E.err q = E.err p' ∧
+      Spec.isWs (E.b q) = false := by
+  obtain ⟨q, h1, h2, h3, h4, h5, h6, h7⟩ := skipWs_sim W (e - p') p' rfl ha hp hr
+  rw [h3] at h
+  have hq : q < e := by
+    apply Nat.lt_of_not_le; intro hle
+    rw [seg_nil hle] at h; cases h
+  rw [seg_cons hq W.he] at h
+  obtain ⟨k1, k2⟩ := List.cons.inj h
+  exact ⟨q, h1, hq, k1, k2.symm, h4, h5, h6, h7 hq⟩
+
+/-- `skipWs` lands at the window end -/
+theorem skip_nil {a e p' : Nat} (W : Win E a e) (ha : a ≤ p') (hp : p' ≤ e) (hr : E.Rdy p')
+    (h : Spec.skipWs (E.seg e p') = []) : E.Rdy e ∧ E.c e = E.c p' ∧ E.err e = E.err p' := by
+  obtain ⟨q, h1, h2, h3, h4, h5, h6, h7⟩ := skipWs_sim W (e - p') p' rfl ha hp hr
+  rw [h3] at h
+  have hq : q = e := by
+    apply Nat.le_antisymm h2
+    apply Nat.le_of_not_lt; intro hlt
+    rw [seg_cons hlt W.he] at h; cases h
+  subst hq
+  exact ⟨h4, h5, h6⟩
+
+theorem close_step {a e q : Nat} (W : Win E a e) (hq : q < e) (hr : E.Rdy q) {m : M} {ent : UInt64}
+    {stk : List UInt64} (g : Ghost)
+    (hb : (E.b q = 93 ∧ (m.st = .arrBegin ∨ m.st = .arrContinue)) ∨ (E.b q = 125 ∧ (m.st = .objBegin ∨ m.st = .objContinue)))
+    (hs : m.stack = ent :: stk) (hok : StkOK m) :
+    ∃ m', run E m g (E.c q) = run E m' (g.close m.tape.size) (E.c (q + 1)) ∧ m'.st = retSt ent ∧ m'.stack = stk ∧
+      m'.tape.size = m.tape.size + 1 ∧ E.Rdy (q + 1) ∧ E.err (q + 1) = E.err q ∧ E.c (q + 1) = E.c q + 1 ∧
+      ClosedAt E (q + 1) := by
+  have hqs : q < E.msg.size := Nat.lt_of_lt_of_le hq W.he
+  have hst : isStructByte (E.b q) = true := by
+    rcases hb with ⟨h, _⟩ | ⟨h, _⟩ <;> rw [h, classify_struct] <;> decide
+  have hloc : locOf ent < m.tape.size := hok ent (by rw [hs]; simp)
+  rcases hb with ⟨hb, hm⟩ | ⟨hb, hm⟩
+  · obtain ⟨m', k1, k2, k3, k4⟩ := scopeEnd_ok m 93 ent stk hs hloc
+    obtain ⟨r1, r2, r3, r4⟩ := struct_step (g := g) (g2 := g.close m.tape.size) hqs hr hst
+      (fun pk => by rw [step_close_arr hm hb]; exact k1) (fun pk => gstep_close_arr g hm hb)
+    exact ⟨m', r1, k4, k2, k3, r2, r3, r4, q, rfl, hqs, E.SF.tokStart q hqs hr (struct_not_ws _ hst), Or.inr hb⟩
+  · obtain ⟨m', k1, k2, k3, k4⟩ := scopeEnd_ok m 125 ent stk hs hloc
+    obtain ⟨r1, r2, r3, r4⟩ := struct_step (g := g) (g2 := g.close m.tape.size) hqs hr hst
+      (fun pk => by rw [step_close_obj hm hb]; exact k1) (fun pk => gstep_close_obj g hm hb)
+    exact ⟨m', r1, k4, k2, k3, r2, r3, r4, q, rfl, hqs, E.SF.tokStart q hqs hr (struct_not_ws _ hst), Or.inl hb⟩
+
+theorem retSt_ent {n : Nat} (hn : n < 2^62) (s : St) : retSt (ent n (retCode s)) = contSt s := by
+  have hr : retCode s < 4 := by cases s <;> decide
+  unfold retSt
+  rw [ent_ret hn hr]
+  cases s <;> rfl
+
+theorem retCode_cases (s : St) : retCode s = cretAddressObjectConst ∨ retCode s = cretAddressArrayConst := by
+  cases s <;> simp [retCode]
+
+/-- opening a container in a value state: the machine pushes the return entry and the inner loop runs -/
+theorem open_sim {a e p : Nat} (W : Win E a e) (hap : a ≤ p) (hpe : p < e) (hr : E.Rdy p) {m : M} (g : Ghost)
+    (hst : IsValSt m.st (E.b p)) (hss : StackShape m.stack) (hok : MOK E m p)
+    (c : UInt8) (hc : E.b p = c) (nst : St) (F0 : Frame)
+    (hcs : (c = 123 ∧ nst = .objBegin ∧ F0 = .obj m.tape.size [] none) ∨ (c = 91 ∧ nst = .arrBegin ∧ F0 = .arr m.tape.size []))
+    (inner : Nat → Spec.Out Spec.JVal)
+    (hinner : ∀ p1 m1, a ≤ p1 → p + 1 ≤ p1 → p1 ≤ e → E.Rdy p1 → (p1 < e → Spec.isWs (E.b p1) = false) →
+      m1.st = nst → m1.stack = ent m.tape.size (retCode m.st) :: m.stack → StackShape m1.stack → MOK E m1 p1 →
+      match inner p1 with
+      | .acc v rest => ContAcc E e p1 m1 (withF g (F0 :: g.frames)) g g.frames (ent m.tape.size (retCode m.st)) m.stack v rest
+      | .rej => Dead E m1 (E.c p1)
+      | .out => True) :
+    ∃ p1, p < p1 ∧ Spec.skipWs (E.seg e (p + 1)) = E.seg e p1 ∧
+      match inner p1 with
+      | .acc v rest => ValAcc E e p m g v rest
+      | .rej => Dead E m (E.c p)
+      | .out => True := by
+  have hps : p < E.msg.size := Nat.lt_of_lt_of_le hpe W.he
+  have htl := tape_lt hok (Nat.le_of_lt hps)
+  have hstr : isStructByte (E.b p) = true := by
+    rcases hcs with ⟨h, _, _⟩ | ⟨h, _, _⟩ <;> rw [hc, h, classify_struct] <;> decide
+  let m1 : M := { (m.push (retCode m.st)).writeTape 0 c with st := nst }
+  have hstep : ∀ pk, m.step E.cfg E.msg p pk = some m1 := by
+    intro pk
+    rcases hcs with ⟨h1, h2, _⟩ | ⟨h1, h2, _⟩
+    · subst h1; subst h2
+      exact step_val_open hst (value_obj m E.cfg E.msg p pk (retCode m.st) hc)
+    · subst h1; subst h2
+      exact step_val_open hst (value_arr m E.cfg E.msg p pk (retCode m.st) hc)
+  have hg : ∀ pk, gstep m g E.msg p pk = withF g (F0 :: g.frames) := by
+    intro pk
+    rw [gstep_value m g E.msg p pk hst]
+    have hcb : E.msg.getD p 0 = c := hc
+    rcases hcs with ⟨h1, _, h3⟩ | ⟨h1, _, h3⟩
+    · subst h1; rw [h3]; simp [gvalue, hcb]; rfl
+    · subst h1; rw [h3]; simp [gvalue, hcb]; rfl
+  obtain ⟨r1, r2, r3, r4⟩ := struct_step (g := g) hps hr hstr hstep hg
+  obtain ⟨p1, s1, s2, s3, s4, s5, s6, s7⟩ := skipWs_sim W (e - (p + 1)) (p + 1) rfl (by omega) (by omega) r2
+  refine ⟨p1, by omega, s3, ?_⟩
+  have hm1s : m1.stack = ent m.tape.size (retCode m.st) :: m.stack := rfl
+  have hm1t : m1.tape.size = m.tape.size + 1 := by simp [m1, M.writeTape, M.push]
+  have hprog : Prog E m p m1 p1 := Prog.step (by rw [s5, r4]) (by omega) (by omega)
+  have hmok : MOK E m1 p1 := by
+    refine hok.of_prog hprog ?_
+    intro x hx
+    rw [hm1s] at hx
+    rcases List.mem_cons.mp hx with rfl | hx
+    · right; rw [ent_loc htl (by cases m.st <;> decide), hm1t]; omega
+    · left; exact hx
+  have hss1 : StackShape m1.stack := by
+    rw [hm1s]
+    refine hss.push _ ?_
+    rw [ent_ret htl (by cases m.st <;> decide)]
+    exact retCode_cases _
+  have hI := hinner p1 m1 (by omega) s1 s2 s4 s7 rfl hm1s hss1 hmok
+  have hrun : run E m g (E.c p) = run E m1 (withF g (F0 :: g.frames)) (E.c p1) := by rw [r1, s5]
+  cases hin : inner p1 with
+  | out => trivial
+  | rej =>
+    rw [hin] at hI
+    exact dead_of_run hrun hI
+  | acc v rest =>
+    rw [hin] at hI
+    obtain ⟨p', m', lv, k1, k2, k3, k4, k5, k6, k7, k8, k9, k10, k11, k12⟩ := hI
+    refine ⟨p', k1, by omega, k3, Or.inl ⟨m', lv, ?_, k5, k6, ?_, ?_, k9, ?_, ?_, ?_⟩⟩
+    · rw [hrun, k4, withF_self]
+    · rw [k7, s6, r3]
+    · rw [k8, retSt_ent htl]
+    · have := hprog.1; omega
+    · exact (hprog.trans k11).2.1
+    · exact (hprog.trans k11).2.2
 
 end SJ.TokenSim
